@@ -154,6 +154,25 @@ def install(I):
             from .interp import _MISSING
             return _MISSING
         return Opaque(None, "re.Pattern", {"getattr": ga, "pattern": pattern})
+    def bisect_left(ctx, lst, x, right=False):
+        # contract of bisect.bisect_left on a sorted list: the insertion point that keeps it sorted, before equal items
+        import z3
+        seq = I.as_seq(ctx, lst)
+        n = B._z(seq.length)
+        ctx.assumed_ext.add("bisect.bisect_left(sorted list, x) = i with all(e < x for e in a[:i]) and all(e >= x for e in a[i:])")
+        num = lambda v: B.zreal(v)
+        a, b = z3.Int(ctx.fresh_name("bs_a")), z3.Int(ctx.fresh_name("bs_b"))
+        ctx.oblige("bisect_left.requires.list-is-sorted",
+                   z3.ForAll([a, b], z3.Implies(z3.And(0 <= a, a < b, b < n), num(seq.elem(a)) <= num(seq.elem(b)))), kind="requires")
+        i = ctx.fresh_int("bisect")
+        q = z3.Int(ctx.fresh_name("bs_q"))
+        e = num(seq.elem(q))
+        ctx.assume(z3.And(i >= 0, i <= n))
+        ctx.assume(z3.ForAll([q], z3.Implies(z3.And(0 <= q, q < n), (q < i) == ((e <= num(x)) if right else (e < num(x)))), patterns=[e]))
+        return B.wrap(i)
+    ext["bisect"] = {"bisect_left": Builtin("bisect.bisect_left", bisect_left),
+                     "bisect_right": Builtin("bisect.bisect_right", lambda ctx, lst, x: bisect_left(ctx, lst, x, right=True)),
+                     "bisect": Builtin("bisect.bisect", lambda ctx, lst, x: bisect_left(ctx, lst, x, right=True))}
     ext["re"] = {"compile": Builtin("re.compile", re_compile),
                  "match": Builtin("re.match", lambda ctx, p, s, flags=0: I.call(ctx, I.getattr(ctx, re_compile(ctx, p, flags), "match"), [s], {}))}
 
